@@ -29,8 +29,17 @@ const (
 var absTypes map[string]string
 
 func absTypeOf(ty types.Type) (string, bool) {
-	if len(absTypes) == 0 || ty == nil {
+	if ty == nil {
 		return "", false
+	}
+	if tp, ok := ty.(*types.TypeParam); ok {
+		return tp.Obj().Name(), true // a type parameter of a generic type is an abstract Lean type of the same name
+	}
+	if len(absTypes) == 0 {
+		return "", false
+	}
+	if p, ok := ty.(*types.Pointer); ok {
+		ty = p.Elem()
 	}
 	if n, ok := ty.(*types.Named); ok && n.Obj().Pkg() != nil {
 		s, ok := absTypes[n.Obj().Pkg().Path()+"."+n.Obj().Name()]
